@@ -85,7 +85,24 @@ def wildmap_witness(prop, failures, repo, verif, workdir, seed, log):
     return {"found": False, "inputs_tried": r["tried"], "search_s": round(time.time() - t0, 1)}
 
 
+def tokens_witness(prop, failures, repo, verif, workdir, seed, log):
+    t0 = time.time()
+    try:
+        binary = twin.build(repo, verif, workdir, log)
+    except Exception as e:
+        return {"found": False, "error": str(e)[:600]}
+    r = twin.run(binary, ["search-tokens", seed + 1, 15000], timeout=60)
+    if r["found"]:
+        log(f"  witness (search-tokens, {r['tried']} texts tried): {r['detail']}")
+        return {"found": True, "kind": r["kind"], "input": r["input"], "detail": r["detail"], "inputs_tried": r["tried"], "search_s": round(time.time() - t0, 1),
+                "replays_on": "real crate built from the checked tree: OriginalSource::map on arbitrary UTF-8 text"}
+    log(f"  witness search: no panic among {r['tried']} texts")
+    return {"found": False, "inputs_tried": r["tried"], "search_s": round(time.time() - t0, 1)}
+
+
 def mixed_witness(prop, failures, repo, verif, workdir, seed, log):
+    if any("helpers_tokens" in f.name for f in failures):
+        return tokens_witness(prop, failures, repo, verif, workdir, seed, log)
     if any("replace_helpers" in f.name for f in failures):
         return wildmap_witness(prop, failures, repo, verif, workdir, seed, log)
     if any("replace_" in f.name for f in failures):
@@ -100,13 +117,17 @@ def replay(prop, path, repo, verif, workdir, log):
     if not w.get("found"):
         return None
     binary = twin.build(repo, verif, workdir, log)
-    kind = {"enc": "replay-enc", "lines": "replay-lines", "dec": "replay-dec", "replace": "replay-replace", "eqhash": "replay-eqhash", "wildmap": "replay-wildmap"}[w["kind"]]
+    kind = {"enc": "replay-enc", "lines": "replay-lines", "dec": "replay-dec", "replace": "replay-replace", "eqhash": "replay-eqhash", "wildmap": "replay-wildmap", "tokens": "replay-tokens"}[w["kind"]]
     inp = w["input"]
     if w["kind"] == "dec":
         import ast
         inp = ast.literal_eval(inp) if inp.startswith('"') else inp
     import subprocess
     crit = {"C11": "wire", "C19": "wire", "C17": "panic"}.get(prop, "bytes") if w["kind"] in ("enc", "lines", "dec") else "bytes"
-    p = subprocess.run([binary, kind, inp], capture_output=True, text=True, timeout=120, env=dict(os.environ, TWIN_CRIT=crit))
+    try:
+        p = subprocess.run([binary, kind, inp], capture_output=True, text=True, timeout=60, env=dict(os.environ, TWIN_CRIT=crit))
+    except subprocess.TimeoutExpired:
+        log("REPRODUCED: the real code does not return within 60 s on the recorded input (hang)")
+        return True
     log(p.stdout.strip())
     return p.returncode == 1
